@@ -571,3 +571,70 @@ Proof.
   rewrite (Hh o eq_refl) in *.
   eapply resolves_app; eauto. eapply resolves_step; eauto; [reflexivity|apply resolves_nil].
 Qed.
+
+(* ------------------------------------------------------------------ witnesses (known findings, refutations) *)
+Definition tiny (k : Z) : cspec :=
+  mkSpec [("pixels"%string, Table [("count"%string, Fresh (PInts [k]))])] [("format"%string, AStr MAGIC)].
+Definition sx : path := ["x"%string].
+Definition sxy : path := ["x"%string; "y"%string].
+
+(** D14a: after  ln f::/ f::/a/b  the traversal of list_coolers exhausts its budget (RecursionError) *)
+Definition w_cycle : world :=
+  run world0 [OCreate FA [] false (tiny 1); OCopy FA [] FA ["a"; "b"]%string false true false false].
+Lemma listing_cycle_refuted : list_coolers w_cycle FA = (ERecursion, []) /\ is_cooler w_cycle FA ["a"; "b"]%string = TTrue.
+Proof. vm_compute. split; reflexivity. Qed.
+
+(** D14b: a collection reached through an external link is listed under the target's own path *)
+Definition w_ext : world :=
+  run world0 [OCreate FA sx false (tiny 1); OCopy FA sx FB ["e"%string] false false false true].
+Lemma listing_external_refuted :
+  list_coolers w_ext FB = (Ok, [sx]) /\ is_cooler w_ext FB ["e"%string] = TTrue /\ is_cooler w_ext FB sx = TFalse.
+Proof. vm_compute. repeat split; reflexivity. Qed.
+
+(** D14c: a dangling link makes the listing fail (AttributeError) *)
+Definition w_dangling : world :=
+  run world0 [OCreate FA sx false (tiny 1); OCopy FA sx FA ["y"%string] false false false true;
+              OCopy FA sx FA ["z"%string] false false true false].
+Lemma listing_dangling_refuted :
+  list_coolers w_dangling FA = (EAttr, []) /\ is_cooler w_dangling FA ["z"%string] = TTrue /\
+  is_cooler w_dangling FA ["y"%string] = TFalse.
+Proof. vm_compute. repeat split; reflexivity. Qed.
+
+(** D23: mv into the moved group itself succeeds and the collection is unreachable afterwards *)
+Lemma mv_spec_refuted :
+  let w := run world0 [OCreate FA sx false (tiny 1)] in
+  let r := mv w FA sx FA sxy false in
+  fst r = Ok /\ resolve (snd r) FA sxy = Missing true /\
+  resolve (snd r) FA sx = Missing false /\ list_coolers (snd r) FA = (Ok, []).
+Proof. vm_compute. repeat split; reflexivity. Qed.
+
+(** D24: mv of the root collection fails (KeyError) and still leaves the new hard link behind *)
+Lemma mv_root_error_changes_file :
+  let w := run world0 [OCreate FA [] false (tiny 1)] in
+  let r := mv w FA [] FA sx false in
+  fst r = EKey /\ is_cooler w FA sx = TFalse /\ is_cooler (snd r) FA sx = TTrue.
+Proof. vm_compute. repeat split; reflexivity. Qed.
+
+(** D26: a soft link created below an external link lands in the other file and dangles *)
+Lemma lns_behind_external_refuted :
+  let w := run world0 [OCreate FA sxy false (tiny 1); OCreate FB ["z"%string] false (tiny 2);
+                       OCopy FA sxy FB sx false false false true] in
+  let r := ln w FB ["z"%string] FB sxy true false in
+  fst r = Ok /\ is_cooler w FB ["z"%string] = TTrue /\ is_cooler (snd r) FB sxy = TFalse /\
+  lookup_link (snd r) FA 2%nat "y"%string = Some (Soft ["z"%string]).
+Proof. vm_compute. repeat split; reflexivity. Qed.
+
+(** the error frame does NOT extend to the overwrite flag: a refused cross-file hard link with
+    overwrite=True has already truncated the destination file *)
+Lemma error_frame_overwrite_refuted :
+  let w := run world0 [OCreate FA sx false (tiny 1); OCreate FB sx false (tiny 2)] in
+  let r := ln w FA sx FB ["y"%string] false true in
+  fst r = EOS /\ is_cooler w FB sx = TTrue /\ is_cooler (snd r) FB sx = TFalse.
+Proof. vm_compute. repeat split; reflexivity. Qed.
+
+(** non-vacuity of the frame / same-object theorems *)
+Lemma ex_ln_ok :
+  let w := run world0 [OCreate FA sx false (tiny 1)] in
+  let r := ln w FA sx FA ["z"%string] false false in
+  fst r = Ok /\ resolve (snd r) FA ["z"%string] = resolve w FA sx /\ resolve w FA sx = Found FA 1%nat.
+Proof. vm_compute. repeat split; reflexivity. Qed.
